@@ -128,6 +128,22 @@ def gen_uri(r):
     return s
 
 
+DSTS = ["-", "198.51.100.1", "::1", "2001:db8::1", "fe80::1"]
+INTO_HOSTS = [b"198.51.100.1", b"198.51.100.2", b"[::1]", b"[2001:db8::1]", b"[2001:DB8::1]",
+              b"[fe80::1%25eth0]", b"[fe80::2%25eth0]", b"example.com", b"EXAMPLE.com", b"ex%41mple",
+              b"h%2", b"%2Fun%2Fsock", b"h", b"[::1%25]", b"198.51.100.1%25x"]
+
+
+def gen_into(r):
+    sch = r.choice([b"coap", b"coaps", b"coap+tcp", b"coaps+tcp", b"coap+ws", b"coaps+ws"])
+    port = r.choice([b"", b"", b":5683", b":5684", b":80", b":443", b":0", b":1", b":255", b":256",
+                     b":65535", b":"])
+    path = r.choice([b"", b"/", b"/..", b"/../a", b"/a/../../b", b"/a/b", b"/%2e%2e/x", b"/a/./b/",
+                     b"/" + gen_path(r)])
+    q = r.choice([b"", b"?", b"?a=1&b", b"?%26", b"?" + gen_path(r, query=True)])
+    return r.choice(DSTS), sch + b"://" + r.choice(INTO_HOSTS) + port + path + q
+
+
 REST_RX = re.compile(rb"(?:\[(?P<v6>[^\]]+)\]|(?P<h>[^:/?\[][^:/?]*))(?::(?P<port>[0-9]*))?"
                      rb"(?:/(?P<path>[^?]*))?(?:\?(?P<q>.*))?\Z", re.S)
 ABS_RX = re.compile(rb"/(?P<path>[^?]*)(?:\?(?P<q>.*))?\Z", re.S)
